@@ -31,3 +31,8 @@ pub type DefaultStreamManager = AbstractStreamManager<StreamImpl>;
 
 #[cfg(test)]
 mod testing;
+
+// verif hook H1 (add-only): stream-area model-checking harnesses (C01, C02, C03, C04, C12), see /verif/DESIGN.md
+#[cfg(all(test, aws_s2n_quic_verif))]
+#[path = "/verif/engines/txmc/stream.rs"]
+mod verif_txmc_stream;
